@@ -67,7 +67,7 @@ use libp2p::{
 };
 use rand::Rng;
 use std::{
-    collections::{BTreeMap, HashMap},
+    collections::{BTreeMap, BTreeSet, HashMap},
     net::IpAddr,
     sync::Arc,
 };
@@ -613,7 +613,8 @@ impl Network {
 
         // attempt to deserialise and accumulate any transactions or registers
         let results_count = result_map.len();
-        let mut accumulated_transactions = HashSet::new();
+        // ordered, so that the merged record is the same whatever order the versions are visited in
+        let mut accumulated_transactions = BTreeSet::new();
         let mut collected_registers = Vec::new();
         let mut valid_scratchpad: Option<Scratchpad> = None;
 
@@ -662,6 +663,14 @@ impl Network {
                             continue;
                         };
 
+                        // a register of another address is not a version of the requested record
+                        if NetworkAddress::from_register_address(*register.address()).to_record_key()
+                            != *key
+                        {
+                            warn!("Ignoring register of another address {} returned for {pretty_key}", register.address());
+                            continue;
+                        }
+
                         match register.verify() {
                             Ok(_) => {
                                 collected_registers.push(register);
@@ -683,6 +692,14 @@ impl Network {
                             );
                             continue;
                         };
+
+                        // a scratchpad of another owner is not a version of the requested record
+                        if NetworkAddress::ScratchpadAddress(*scratchpad.address()).to_record_key()
+                            != *key
+                        {
+                            warn!("Ignoring scratchpad of another address returned for {pretty_key}");
+                            continue;
+                        }
 
                         if !scratchpad.is_valid() {
                             warn!(
